@@ -162,6 +162,17 @@ def P_C04 (cfg : WireCfg) (fs : List Frame) (o : WireObs) : Verdict :=
     | .bad => none
   let bad := o.out.any fun rep => onewayToks.any fun t => mentions t rep
   if bad then some "reply-to-oneway-request" else
+  -- requests answered by the library itself (built-in interface, unknown interface, no dot) get at most one
+  -- reply each whatever their flags: when every non-oneway request of the case is of that kind, any further
+  -- reply can only belong to a oneway request (whatever its method implementation does)
+  let librarySide (r : Request) : Bool := match ifacePart r.method with
+    | none => true
+    | some i => i == svcName || (lastRegistered cfg i).isNone
+  let nonOnewayReqs := fs.filterMap fun f => match f with
+    | .req r => if isOneway r then none else some r
+    | .bad => none
+  if !o.rawOut && nonOnewayReqs.all librarySide && o.out.length > nonOnewayReqs.length then
+    some "reply-to-oneway-request (more replies than the non-oneway requests can have)" else
   -- counting needs every method implementation of the case to be proper
   let inScopeAll := fs.all fun f => match f with | .req r => inScope cfg r | .bad => true
   if !inScopeAll then none else
